@@ -183,7 +183,7 @@ def r_C03bc(root):
     return inst, out
 def r_C02ab(root):
     out = []; inst = 0
-    up = find(load(root, L), "TextXVisitor.visit_textx_rule._update_attr_multiplicities")
+    up = find_i(root, L, "TextXVisitor.visit_textx_rule._update_attr_multiplicities")      # nested / private helpers inlined
     W = "_update_attr_multiplicities"
     param = up.args.args[1].arg
     fi = sem.info(up); cfg = fi.cfg; rd = fi.rd
@@ -238,10 +238,27 @@ def r_C02ab(root):
     ob("C02", "C02.a", L, W, "membership test and add on the accumulator", bool(adds and tests))
     # b: repetition promotes, priority table, ?= in repetition rejected
     inst += 3
-    src_up = ast.unparse(up)
-    if not ("isinstance(rule, OneOrMore)" in src_up and "mult = MULT_ONEORMORE" in src_up and "isinstance(rule, ZeroOrMore)" in src_up and "mult = MULT_ZEROORMORE" in src_up and "mult_lt(cls_attr.mult, mult)" in src_up):
+    def _g_has(st_, pred):
+        return any(pol and pred(t) for t, pol in guards(st_))
+    def _isinst(t, cls_):
+        return any(isinstance(c, ast.Call) and callee_name(c) == "isinstance" and len(c.args) == 2 and cls_ in {x.id for x in ast.walk(c.args[1]) if isinstance(x, ast.Name)} for c in ast.walk(t))
+    asg = [n for n in own_nodes(up) if isinstance(n, ast.Assign) and len(n.targets) == 1]
+    many = {"OneOrMore": "MULT_ONEORMORE", "ZeroOrMore": "MULT_ZEROORMORE"}
+    mult_vars = set()
+    for cls_, const_ in many.items():
+        hit = [a for a in asg if isinstance(a.targets[0], ast.Name) and isinstance(a.value, ast.Name) and a.value.id == const_ and _g_has(a, lambda t: _isinst(t, cls_))]
+        mult_vars |= {a.targets[0].id for a in hit}
+        if not hit: mult_vars = None; break
+    promoted = False
+    if mult_vars:
+        for a in asg:
+            if isinstance(a.targets[0], ast.Attribute) and a.targets[0].attr == "mult" and isinstance(a.value, ast.Name) and a.value.id in mult_vars and _g_has(a, lambda t: any(isinstance(c, ast.Call) and callee_name(c) == "mult_lt" for c in ast.walk(t))): promoted = True
+    ob("C02", "C02.b", L, W, "repetition promotes the attribute multiplicity (guarded by mult_lt)", promoted)
+    if not promoted:
         out.append(Finding("C02", "C02.b", L, "_update_attr_multiplicities", "repetition case", "assignments under a repetition are not promoted to a list"))
-    if "__asgn_optional" not in src_up or "TextXSemanticError" not in src_up: out.append(Finding("C02", "C02.b", L, "_update_attr_multiplicities", "?= in repetition", "bool assignment inside a repetition is not rejected"))
+    rej = [r_ for r_ in own_nodes(up) if isinstance(r_, ast.Raise) and r_.exc is not None and "TextXSemanticError" in ast.unparse(r_.exc) and _g_has(r_, lambda t: "__asgn_optional" in ast.unparse(t))]
+    ob("C02", "C02.b", L, W, "?= inside a repetition is rejected", bool(rej))
+    if not rej: out.append(Finding("C02", "C02.b", L, "_update_attr_multiplicities", "?= in repetition", "bool assignment inside a repetition is not rejected"))
     const = load(root, "textx/const.py")
     pr = next(n for n in const.body if isinstance(n, ast.Assign) and ast.unparse(n.targets[0]) == "priority")
     if [e.id for e in pr.value.elts] != ["MULT_OPTIONAL", "MULT_ONE", "MULT_ZEROORMORE", "MULT_ONEORMORE"]: out.append(Finding("C02", "C02.b", "textx/const.py", "priority", ast.unparse(pr), "multiplicity order changed"))
@@ -351,14 +368,36 @@ def r_C19a_C01(root):
     # C01.b modifier keys
     vmod = find(t, "TextXVisitor.visit_repeat_modifiers")
     wkeys = {s.targets[0].slice.value for s in ast.walk(vmod) if isinstance(s, ast.Assign) and isinstance(s.targets[0], ast.Subscript) and ast.unparse(s.targets[0].value) == "modifiers"}
-    for fn_name, var in (("visit_repeatable_expr", "rule"), ("visit_assignment", "assignment_rule")):
-        f = find(t, "TextXVisitor." + fn_name); inst += 1
-        src = ast.unparse(f)
+    def _mod_keys_read(e):
+        """modifier keys an expression reads: d.get('k', ...), d['k'], 'k' in d"""
+        ks = set()
+        for n in ast.walk(e):
+            if isinstance(n, ast.Call) and callee_name(n) == "get" and n.args and isinstance(n.args[0], ast.Constant) and isinstance(n.args[0].value, str): ks.add(n.args[0].value)
+            elif isinstance(n, ast.Subscript) and isinstance(n.slice, ast.Constant) and isinstance(n.slice.value, str): ks.add(n.slice.value)
+            elif isinstance(n, ast.Compare) and len(n.ops) == 1 and isinstance(n.ops[0], ast.In) and isinstance(n.left, ast.Constant) and isinstance(n.left.value, str): ks.add(n.left.value)
+        return ks
+    from sa import sem as _sem_b
+    for fn_name in ("visit_repeatable_expr", "visit_assignment"):
+        f = find_i(root, L, "TextXVisitor." + fn_name); inst += 1
+        fi_ = _sem_b.info(f)
         rd = set()
-        if ("%s.sep = modifiers.get('sep'" % var) in src: rd.add("sep")
-        if ("'eolterm' in modifiers" in src) and ("%s.eolterm = True" % var) in src: rd.add("eolterm")
+        for st_ in [x for x in ast.walk(f) if isinstance(x, (ast.Assign, ast.Expr))]:
+            if isinstance(st_, ast.Assign):
+                tg = [t_ for t_ in st_.targets if isinstance(t_, ast.Attribute)]
+                if not tg: continue
+                attr_ = tg[0].attr; val_ = st_.value
+            else:
+                c_ = st_.value
+                if not (isinstance(c_, ast.Call) and callee_name(c_) == "setattr" and len(c_.args) == 3 and isinstance(c_.args[1], ast.Constant)): continue
+                attr_ = c_.args[1].value; val_ = c_.args[2]
+            try: ex_ = fi_.expand(val_, at=st_)
+            except Exception: ex_ = val_
+            ks = _mod_keys_read(ex_) | _mod_keys_read(val_)
+            for g_, pol_ in guards(st_):
+                if pol_: ks |= _mod_keys_read(g_)
+            if attr_ in ks: rd.add(attr_)          # rule.<k> is written from / under modifier key <k>
         need_ = {"sep", "eolterm"} & wkeys
-        if rd != need_: out.append(Finding("C01", "C01.b", L, "TextXVisitor." + fn_name, "modifiers", "repetition modifiers not applied: %s" % sorted(need_ - rd)))
+        if not need_ <= rd: out.append(Finding("C01", "C01.b", L, "TextXVisitor." + fn_name, "modifiers", "repetition modifiers not applied: %s" % sorted(need_ - rd)))
     # C01.c: rule modifiers only on expressions that honour them (truth table on the setattr path)
     inst += 1
     sa = next((c for c in calls(vt, own=True) if callee_name(c) == "setattr" and "rule_params" in ast.unparse(c)), None)
